@@ -1,0 +1,37 @@
+//go:build verif
+
+// Contracts for package user, checked by /verif/govc (comment-only; not part of any normal build).
+
+package user
+
+//@ func crypto.GenerateJWK
+//@   trusted
+//@   benign
+//@   ensures isNilIface(result.1) ==> !isNilIface(result.0)
+//@ func (jwk.Key).PublicKey
+//@   trusted
+//@   benign
+//@ func json.Marshal
+//@   trusted
+//@   benign
+//@ func (*base64.Encoding).EncodeToString
+//@   trusted
+//@   benign
+//@ func did.ParseDID
+//@   trusted
+//@   benign
+//@   ensures isNilIface(result.1) ==> result.0 != nil
+//@ func (jwk.Key).Set
+//@   trusted
+//@   benign
+
+// ---- C03: the did:jwk of a user session is made from the PUBLIC half of the session key ----
+// The DID ends up in credentials, tokens and error descriptions: the only thing serialised into it is
+// what PublicKey() of the generated key returned.
+//@ func generateUserSessionJWK
+//@   prop C03
+//@   call json.Marshal #* requires [only-the-public-half-is-serialised] isNilIface(ret(call (jwk.Key).PublicKey #1).1) && arg(0) == any(ret(call (jwk.Key).PublicKey #1).0)
+//@        && arg(call (jwk.Key).PublicKey #1, 0) == ret(call crypto.GenerateJWK #1).0
+//@   call (*base64.Encoding).EncodeToString #1 requires [did-from-the-serialised-public-key] isNilIface(ret(call json.Marshal #1).1) && arg(1) == ret(call json.Marshal #1).0
+//@   ensures [returns-the-generated-key-and-the-did-made-from-it] isNilIface(result.2) ==> result.0 == ret(call crypto.GenerateJWK #1).0 && result.1 == ret(call did.ParseDID #1).0
+//@        && did(call (*base64.Encoding).EncodeToString #1)
